@@ -29,6 +29,13 @@ def run(ctx):
                     w = dict(s); w["no_reneg"] = True
                     w["extra_exts"] = [{"id": 0xfe0d, "data": [1]}, {"id": 0xabcd, "data": [1, 2, 3]}]
                     out.append(w)
+                # TLS <= 1.2: the ECDHE curve is the client's first group the server supports, the server's own preference
+                # order differs (custom spec with P-256 / P-384 moved to the front, server prefers X25519)
+                if s["ver"] <= 771:
+                    for g in (23, 24):
+                        t = next((t for t in scns if t["id"] == s["id"] and t["ver"] == s["ver"] and t["group"] == g and not t["alpn"]), None)
+                        if t is not None:
+                            out.append(dict(t, groups_first=g, srv_groups=[29, 23, 24, 25]))
                 # the same spec with renegotiation support off: there the client does export keying material
                 for ca in (0, 1, 2):
                     z = dict(s); z["client_auth"] = ca; z["no_reneg"] = True
